@@ -51,8 +51,6 @@ def gen_auth_shape():
 
 
 RACE_ENV = {"GORACE": "exitcode=0 log_path={outdir}/race"}
-KNOWN_RACE = ("data race on h3sHandler.authenticated: the stream dispatcher (ProxyStreamHijacker) reads the flag without "
-              "synchronisation while ServeHTTP writes it under authMutex")
 
 
 def _first_frame(block, header_re):
@@ -61,30 +59,25 @@ def _first_frame(block, header_re):
 
 
 def race_reports(prop, component):
-    """Thorough tier runs the harness under the race detector with exitcode=0 and a log file; every report is a
-    failure of the atomicity assumption.  The one race of the pinned tree (the flag read in the dispatcher) is a
-    recorded finding (known_findings.json, repaired by fixes/D13.patch); anything else fails the check."""
+    """Thorough tier runs the harness under the race detector (exitcode=0, reports go to a log file so that the
+    history stream still completes and is compared).  Every report is a failure: the model's atomic steps are not
+    atomic in the implementation.  (The flag race of the originally pinned tree was repaired in /repo as D14.)"""
     def check(tier, seed, binaries):
         if tier != "thorough":
             return [], [], None
         import glob
         fl = []
-        known = other = 0
         for f in sorted(glob.glob(os.path.join(C.BUILD, "runs", prop, component + "-*", "race.*"))):
             for block in open(f, errors="replace").read().split("=================="):
                 if "DATA RACE" not in block:
                     continue
                 w = _first_frame(block, r"(?:Previous write|Write) at")
                 r = _first_frame(block, r"(?:Previous read|Read) at")
-                if w.endswith("(*h3sHandler).ServeHTTP()") and r.endswith("(*h3sHandler).ProxyStreamHijacker()"):
-                    known += 1
-                    what = KNOWN_RACE
-                else:
-                    other += 1
-                    what = "data race reported by the race detector: write in %s, read in %s" % (w or "?", r or "?")
                 fl.append({"component": component, "op": "(race detector, stream %s)" % os.path.basename(os.path.dirname(f)),
-                           "ops": [], "impl": block.strip()[:1800], "what": what})
-        return [], fl, "race detector (-race, thorough tier): %d report(s), %d of them the recorded flag race" % (known + other, known)
+                           "ops": [], "impl": block.strip()[:1800],
+                           "what": "O1: data race reported by the race detector (the model's atomic steps are not atomic): "
+                                   "write in %s, read in %s" % (w or "?", r or "?")})
+        return [], fl, "race detector (-race, thorough tier): %d report(s)" % len(fl)
     check.__name__ = "race_reports"
     return check
 
@@ -100,6 +93,9 @@ CFG = {
          "env": RACE_ENV},
     ],
     "extra_checks": [race_reports("C01", "auth")],
+    # C01 counts only its own clauses (O1 gate, O2 no re-evaluation, O3 attribution to the right connection, O4 no reply
+    # before acceptance); O5/O6 (masquerade equality, authenticator only for the auth shape) belong to C02
+    "oracle_filter_re": r"^O[1-4]:",
     "rule": "one case = one history on 1-3 concurrent connections to one REAL server.NewServer on loopback (auth with accepted / "
             "rejected / blocking credentials, repeated and queued auth, near-miss and plain HTTP/3 requests, raw 0x401 streams with a "
             "TCPRequest (ok / failing dial / hooked / malformed), other raw streams, UDPMessage datagrams incl. malformed, closes), "
@@ -110,8 +106,9 @@ CFG = {
         "after every handler returned (used to make the effect log final, together with the goroutine count returning to its baseline)",
         "the unsynchronised read of h.authenticated in the dispatcher is modelled as an atomic read of a monotone boolean",
         "atomicity of the model's steps (authMutex region split at the authenticator call; one goroutine per TCP handler; one UDP manager)",
-        "the model Hy.Model.Auth is tied to core/server/server.go by the differential stream `auth` (every client-visible outcome and the "
-        "per-connection order of every call into Authenticator/Outbound/EventLogger/TrafficLogger/MasqHandler), by go/ast facts "
+        "the model Hy.Model.Auth is tied to core/server/server.go by the differential stream `auth` (every client-visible outcome - HTTP "
+        "answers abstracted to 233/other - and the per-connection order of every call into Authenticator/Outbound/EventLogger/"
+        "TrafficLogger; WHICH requests the server treats as authentication requests is an observed input, C02 owns that clause), by go/ast facts "
         "(Hy.Gen.AuthShape: who writes the flag and under which guard, who starts the UDP manager, the dispatcher's guard, one handler per "
         "connection) and by constants read from the compiled package",
     ],
